@@ -155,6 +155,17 @@ class Seen:
                 out.append((k, v))
         return sorted(out)
 
+    @property
+    def cookie_items(self):
+        """the (name, value) items of Cookie: in the order they are on the wire"""
+        if not self.cookie:
+            return []
+        out = []
+        for part in self.cookie.split("; "):
+            k, _, v = part.partition("=")
+            out.append((k, v))
+        return out
+
     def header(self, name):
         for k, v in self.headers:
             if k.lower() == name.lower():
@@ -224,6 +235,34 @@ class FakeNet:
         import ssl
         (urllib.request.HTTPHandler.http_open, urllib.request.HTTPSHandler.https_open,
          socket.socket.connect, socket.create_connection, ssl.SSLContext.load_default_certs) = self._saved
+        return False
+
+
+class FakeClock:
+    """Context manager: `http.cookiejar` reads `time.time()` from this object instead of the system clock (every other
+    attribute of the `time` module passes through), so that Max-Age / Expires can be exercised against a clock the check
+    moves.  Only the name `time` inside the module `http.cookiejar` is re-bound; nothing else in the process sees it."""
+
+    def __init__(self, now=1_700_000_000):
+        self.now = now
+        self._saved = None
+
+    def time(self):
+        return self.now
+
+    def __getattr__(self, name):
+        import time as _time
+        return getattr(_time, name)
+
+    def __enter__(self):
+        import http.cookiejar
+        self._saved = http.cookiejar.time
+        http.cookiejar.time = self
+        return self
+
+    def __exit__(self, *a):
+        import http.cookiejar
+        http.cookiejar.time = self._saved
         return False
 
 
